@@ -28,6 +28,9 @@ PATTERN_TEXTS = [p for (p, _) in PATTERNS]
 SHAPE_OF = dict(PATTERNS)
 
 MARKERS = ['OPTIONAL', 'DEBUG', 'TMP', 'ΩPT']
+# remove-substrings with white space at an edge: whether a line holds one
+# is a question about the line as given, not about the stripped line
+EDGE_MARKERS = ['# ', ' #', '--\t']
 SUBSTRINGS = ['USER', 'HOST', 'AT', 'KEY=', 'ÉTÉ']
 PREPROCESSORS = ['drop_rem', 'cut20']
 
@@ -147,7 +150,8 @@ def line_case(draw, tier='quick', max_lines=8):
         'insert_marked',
         'delete_plain', 'insert_plain', 'mark_both', 'substring_line',
         'substring_line', 'substring_actual_only', 'dup_line', 'rem_line',
-        'long_line', 'blank_tail']), min_size=0, max_size=3))
+        'long_line', 'blank_tail', 'insert_edge_marked',
+        'edge_marked_pair']), min_size=0, max_size=3))
     if not edits and draw(st.integers(0, 2)) != 0:
         edits = [draw(st.sampled_from(['refill', 'pad', 'swap', 'fchar',
                                        'insert_marked', 'substring_line']))]
@@ -228,6 +232,28 @@ def line_case(draw, tier='quick', max_lines=8):
             tgt.insert(draw(st.integers(0, len(tgt))), line)
             if mk and enable():
                 marks.append(mk)
+        elif e in ('insert_edge_marked', 'edge_marked_pair'):
+            mk = draw(st.sampled_from(EDGE_MARKERS))
+            w = draw(st.sampled_from(F_WORDS))
+            trailing = mk[-1] in ' \t'
+            line = draw(st.sampled_from(
+                [mk, (w + ' ' + mk) if trailing else (mk + ' ' + w)]))
+            if e == 'insert_edge_marked':
+                tgt = act if draw(st.booleans()) else ref
+                tgt.insert(draw(st.integers(0, len(tgt))), line)
+            else:
+                # the same line on both sides, but only one side has the
+                # white space that makes it hold the marker
+                i = draw(st.integers(0, min(len(act), len(ref))))
+                sides = [line, line.strip() or 'X']
+                if draw(st.booleans()):
+                    sides.reverse()
+                act.insert(i, sides[0])
+                ref.insert(i, sides[1])
+            if enable():
+                marks.append(mk)
+            if enable():
+                opts['rstrip' if trailing else 'lstrip'] = True
         elif e == 'delete_plain' and act:
             side = draw(st.sampled_from(['act', 'ref']))
             tgt = act if side == 'act' else ref
@@ -312,7 +338,7 @@ def valid_opts(o):
         return False
     for (k, pool) in (('ignore_substrings', SUBSTRINGS),
                       ('ignore_patterns', PATTERN_TEXTS),
-                      ('remove_lines', MARKERS)):
+                      ('remove_lines', MARKERS + EDGE_MARKERS)):
         v = o[k]
         if v is not None and (not isinstance(v, list) or not v or any(
                 x not in pool for x in v)):
